@@ -675,10 +675,130 @@ func (g *vtC07G) allocList() []int64 {
 	return out
 }
 
+// "sharing" histories: few GPUs (and RDMA devices) shared by many fractional pods, preemption
+// dry runs that remove three or four of them at once (several victims per minor, spread over
+// at least two minors), and more scheduling afterwards, so that a record corrupted by a dry run
+// shows up as a changed ledger at once and as over-commit later.
+func (g *vtC07G) sharingCase() (string, []int64) {
+	r := g.r
+	var ops [][]int64
+	ng := 2 + r.Intn(2)
+	mem := g.pick(16000, 81920, 1<<34)
+	for m := 0; m < ng; m++ {
+		rec := []int64{0, int64(m), 1, 100, 100, mem, -1, 0}
+		if g.topo {
+			rec[6], rec[7] = int64(m%2), int64(m%2)*2+int64(r.Intn(2))
+		}
+		g.inv = append(g.inv, rec)
+	}
+	nr := r.Intn(3)
+	for m := 0; m < nr; m++ {
+		g.inv = append(g.inv, []int64{1, int64(m), 1, 100, -1, -1, -1, 0})
+	}
+	o := []int64{1, int64(len(g.inv))}
+	for _, rec := range g.inv {
+		o = append(o, rec...)
+	}
+	ops = append(ops, o)
+	frac := func() []int64 {
+		p := g.next
+		g.next++
+		g.tried = append(g.tried, p)
+		req := make([]int64, 7)
+		switch r.Intn(6) {
+		case 0:
+			if nr > 0 {
+				req[5] = g.pick(10, 20, 30, 40)
+				break
+			}
+			fallthrough
+		case 1:
+			req[1], req[2] = g.pick(10, 20, 30), g.pick(10, 20, 30, 40)
+		default:
+			req[0] = g.pick(10, 20, 30, 30, 40, 50)
+		}
+		return append([]int64{2, p}, req...)
+	}
+	foreign := func() []int64 {
+		p := g.next
+		g.next++
+		g.tried = append(g.tried, p)
+		rec := g.inv[r.Intn(len(g.inv))]
+		amt := g.pick(10, 20, 30, 40)
+		vs := []int64{amt, -1, -1}
+		if rec[0] == 0 {
+			vs = []int64{amt, amt, amt * mem / 100}
+		}
+		return []int64{6, p, 1, rec[0], rec[1], vs[0], vs[1], vs[2]}
+	}
+	dry := func() []int64 {
+		req := make([]int64, 7)
+		if nr > 0 && r.Intn(4) == 0 {
+			req[5] = g.pick(60, 80, 100)
+		} else {
+			req[0] = g.pick(60, 70, 80, 90, 100, 200)
+		}
+		nv := 2 + r.Intn(3)
+		perm := r.Perm(len(g.tried))
+		var vs []int64
+		for _, j := range perm {
+			if len(vs) < nv {
+				vs = append(vs, g.tried[j])
+			}
+		}
+		o := append([]int64{10, g.next + 50}, req...)
+		o = append(o, int64(len(vs)))
+		return append(o, vs...)
+	}
+	nfill := 4 + r.Intn(4)
+	for j := 0; j < nfill; j++ {
+		if r.Intn(4) == 0 {
+			ops = append(ops, foreign())
+		} else {
+			ops = append(ops, frac())
+		}
+	}
+	nrest := 4 + r.Intn(8)
+	for j := 0; j < nrest; j++ {
+		k := r.Intn(100)
+		switch {
+		case k < 35:
+			ops = append(ops, dry())
+		case k < 65:
+			ops = append(ops, frac())
+		case k < 75:
+			// a pod that only fits if a record was inflated by an earlier dry run
+			o := dry()
+			q := g.next
+			g.next++
+			g.tried = append(g.tried, q)
+			ops = append(ops, append([]int64{2, q}, o[2:9]...))
+		case k < 90:
+			p := g.somePod()
+			g.drop(p)
+			ops = append(ops, []int64{g.pick(3, 5, 5, 9), p})
+		default:
+			ops = append(ops, []int64{4, g.somePod()})
+		}
+	}
+	in := []int64{int64(len(ops))}
+	for _, o := range ops {
+		in = append(in, o...)
+	}
+	label := "sharing"
+	if g.topo {
+		label += "+topo"
+	}
+	return label, in
+}
+
 func vtC07Gen(r *rand.Rand, i int) (string, []int64) {
 	g := &vtC07G{r: r}
-	g.style = []string{"plain", "plain", "plain", "churn", "churn", "degenerate"}[r.Intn(6)]
+	g.style = []string{"plain", "plain", "plain", "churn", "churn", "degenerate", "sharing"}[r.Intn(7)]
 	g.topo = r.Intn(5) < 2
+	if g.style == "sharing" {
+		return g.sharingCase()
+	}
 	nops := 3 + r.Intn(16)
 	var ops [][]int64
 	ops = append(ops, g.refreshOp())
